@@ -55,3 +55,76 @@ package attribute
 //@   ensures len(kvs) == 8 ==> typeis(r, "[8]KeyValue") && (forall i in 0 .. 8 : cast(r, "[8]KeyValue")[i] == kvs[i])
 //@   ensures len(kvs) == 9 ==> typeis(r, "[9]KeyValue") && (forall i in 0 .. 9 : cast(r, "[9]KeyValue")[i] == kvs[i])
 //@   ensures len(kvs) == 10 ==> typeis(r, "[10]KeyValue") && (forall i in 0 .. 10 : cast(r, "[10]KeyValue")[i] == kvs[i])
+
+// ---- abstract view of a Set: its length and its i-th attribute. The storage is a reflect-built array inside an interface
+// value (computeDistinctReflect) read back through reflect (Len/Get/Iter): those accessors are trusted to agree with the view.
+//@ spec setLen(d Distinct) int
+//@ spec setAt(d Distinct, i int) KeyValue
+//@ axiom setLen_nonneg: forall d Distinct : setLen(d) >= 0 && setLen(d) <= 2305843009213693952
+
+//@ func computeDistinct(kvs []KeyValue) (d Distinct)
+//@   prop -
+//@   trusted "array storage built through reflect for more than 10 attributes; fixed-size path (computeDistinctFixed) is proved"
+//@   ensures setLen(d) == len(kvs) && (forall i in 0 .. len(kvs) : setAt(d, i) == kvs[i])
+//@ func (l *Set) Len() (n int)
+//@   prop -
+//@   trusted "reads the reflect-built storage"
+//@   ensures n == ite(l == nil, 0, setLen(l.equivalent))
+//@ func (l *Set) Get(idx int) (kv KeyValue, ok bool)
+//@   prop -
+//@   trusted "reads the reflect-built storage"
+//@   ensures ok == (l != nil && 0 <= idx && idx < setLen(l.equivalent))
+//@   ensures ok ==> kv == setAt(l.equivalent, idx)
+//@ func (l *Set) ToSlice() (s []KeyValue)
+//@   prop -
+//@   trusted "reads the reflect-built storage"
+//@   ensures fresh(s) && len(s) == ite(l == nil, 0, setLen(l.equivalent)) && (forall i in 0 .. len(s) : s[i] == setAt(l.equivalent, i))
+
+// Filter: the original set is unaltered (frame: nothing that existed before the call is written), the result holds
+// exactly the attributes satisfying re, the rest is returned as dropped, nothing is lost.
+//@ func (l *Set) Filter(re Filter) (r Set, dropped []KeyValue)
+//@   requires l != nil
+//@   ensures re == nil ==> r == *l && len(dropped) == 0
+//@   ensures re != nil ==> forall i in 0 .. len(dropped) : !re(dropped[i])
+//@   ensures re != nil ==> forall i in 0 .. setLen(r.equivalent) : re(setAt(r.equivalent, i))
+//@   ensures setLen(r.equivalent) + len(dropped) == setLen(l.equivalent)
+//@   loop#1 invariant -1 <= first && first < n && n == setLen(l.equivalent)
+//@   loop#1 invariant forall k in first+1 .. n : re(setAt(l.equivalent, k))
+//@   loop#1 decreases first + 1
+
+// ---- iterators: one merge step of two sorted sets, the first iterator wins on equal keys (C05, used by C19)
+//@ func (l *Set) Iter() (it Iterator)
+//@   prop -
+//@   trusted "constructor: Iterator{storage: l, idx: -1}; l nil is replaced by the empty set"
+//@   ensures it.storage != nil && it.idx == -1 && ite(l == nil, setLen(it.storage.equivalent) == 0, it.storage.equivalent == l.equivalent)
+
+//@ func (i *Iterator) Next() (ok bool)
+//@   requires i != nil && i.storage != nil && i.idx >= -1 && i.idx <= setLen(i.storage.equivalent)
+//@   modifies i
+//@   ensures i.idx == old(i.idx) + 1 && i.storage == old(i.storage)
+//@   ensures ok == (i.idx < setLen(i.storage.equivalent))
+//@ func (i *Iterator) Attribute() (kv KeyValue)
+//@   requires i != nil && i.storage != nil
+//@   ensures 0 <= i.idx && i.idx < setLen(i.storage.equivalent) ==> kv == setAt(i.storage.equivalent, i.idx)
+
+// a oneIterator caches the attribute at its position; done <=> position past the end
+//@ spec oneOK(oi oneIterator) bool = oi.iter.storage != nil && 0 <= oi.iter.idx && oi.iter.idx <= setLen(oi.iter.storage.equivalent) && oi.done == (oi.iter.idx >= setLen(oi.iter.storage.equivalent)) && (!oi.done ==> oi.attr == setAt(oi.iter.storage.equivalent, oi.iter.idx))
+//@ func (oi *oneIterator) advance()
+//@   requires oi != nil && oi.iter.storage != nil && oi.iter.idx >= -1 && oi.iter.idx < setLen(oi.iter.storage.equivalent)
+//@   modifies oi
+//@   ensures oneOK(*oi) && oi.iter.idx == old(oi.iter.idx) + 1 && oi.iter.storage == old(oi.iter.storage)
+
+//@ func (m *MergeIterator) Next() (ok bool)
+//@   requires m != nil && oneOK(m.one) && oneOK(m.two)
+//@   modifies m
+//@   ensures oneOK(m.one) && oneOK(m.two) && m.one.iter.storage == old(m.one.iter.storage) && m.two.iter.storage == old(m.two.iter.storage)
+//@   ensures ok == !(old(m.one.done) && old(m.two.done))
+//@   ensures !ok ==> m.one.iter.idx == old(m.one.iter.idx) && m.two.iter.idx == old(m.two.iter.idx)
+//@   ensures ok && !old(m.one.done) && (old(m.two.done) || !(old(m.two.attr.Key) < old(m.one.attr.Key))) ==> m.current == old(m.one.attr) && m.one.iter.idx == old(m.one.iter.idx) + 1
+//@   ensures ok && !old(m.one.done) && !old(m.two.done) && old(m.one.attr.Key) == old(m.two.attr.Key) ==> m.two.iter.idx == old(m.two.iter.idx) + 1
+//@   ensures ok && !old(m.one.done) && (old(m.two.done) || old(m.one.attr.Key) < old(m.two.attr.Key)) ==> m.two.iter.idx == old(m.two.iter.idx)
+//@   ensures ok && !old(m.two.done) && (old(m.one.done) || old(m.two.attr.Key) < old(m.one.attr.Key)) ==> m.current == old(m.two.attr) && m.two.iter.idx == old(m.two.iter.idx) + 1 && m.one.iter.idx == old(m.one.iter.idx)
+//@ func (m *MergeIterator) Attribute() (kv KeyValue)
+//@   requires m != nil
+//@   ensures kv == m.current
+//@ axiom setLen_invalid: forall d Distinct : d.iface == nil ==> setLen(d) == 0
